@@ -27,7 +27,7 @@ from hpstatic.poly import Canon
 from hpstatic.terms import (sym, intern, show, subterms, calls_in, NONE, num, kw,
                             atoms_of)
 from hpstatic.xrnorm import atom_rewrite
-from .common import path_has, norm_cond
+from .common import path_has, norm_cond, call_args, term_args
 
 MUTATION_TARGETS = {'holopy/inference/model.py': ['_lnposterior', '_lnprior', '_lnlike', '_residuals', '_find_noise', '_find_optics', '_forward', '__init__'], 'holopy/core/utils.py': ['evaluate']}
 
@@ -205,7 +205,8 @@ def posterior(check, prog):
                           show(x)[:80] for x in a))
         ms = calls_in(d, 'make_subset_data')
         if ms:
-            okm = ms[0][2][0] == sym('data') and kw(ms[0], 'pixels') == sym('pixels')
+            ba = term_args(prog, ms[0])
+            okm = ba.get('data') == sym('data') and ba.get('pixels') == sym('pixels')
             check.require(okm, 'P1-likelihood-arguments', 'Model._lnposterior subset',
                           'subset = make_subset_data(data, pixels=pixels)', loc)
 
